@@ -103,6 +103,14 @@ class Adapter(EnvAdapter):
                 # observed, for C01: the value action_spec.generate_value() produces
                 "gen_action": [int(x) for x in np.asarray(env.action_spec.generate_value()).reshape(-1)]}
 
+    @staticmethod
+    def _nv(env):
+        return int(np.asarray(env.action_spec.shape).reshape(-1)[0])
+
+    @staticmethod
+    def _nc(env):
+        return int(np.asarray(env.observation_spec.generate_value().action_mask).shape[-1]) - 1
+
     # ---- projection -----------------------------------------------------------------------
     def project_state(self, env, state):
         out = jsonify.to_json(state, drop=self.drop_state, overrides=self.state_overrides)
@@ -135,7 +143,7 @@ class Adapter(EnvAdapter):
     def random_actions(self, env, rng, k):
         """Uniform over the DOCUMENTED range 0..num_customers of every vehicle."""
         _, _, nv = self._bounds(env)
-        return rng.integers(0, env._num_customers + 1, size=(k, nv)).astype(env.action_spec.dtype)
+        return rng.integers(0, self._nc(env) + 1, size=(k, nv)).astype(env.action_spec.dtype)
 
     def spec_random_actions(self, env, rng, k):
         """Uniform over the DECLARED bounds of the action spec."""
@@ -226,7 +234,7 @@ class Adapter(EnvAdapter):
 
     def choose(self, policy, env, state, obs, rng, i):
         dt = env.action_spec.dtype
-        nv = env._num_vehicles
+        nv = self._nv(env)
         if policy == "spec_random":
             return self.spec_random_actions(env, rng, 1)[0]
         if policy == "stall":  # never serve anybody: runs into the step limit with all demand left
@@ -238,8 +246,8 @@ class Adapter(EnvAdapter):
             cap = np.asarray(state.vehicles.capacities).astype(np.int64)
             pos = np.asarray(state.vehicles.positions).astype(np.int64)
             if policy == "finish_at_limit" and (pos == 0).all():
-                need = self._plan_len(dem, cap, pos, _SCENARIO[(env._num_customers, nv)][0])
-                if i + need < 2 * env._num_customers:
+                need = self._plan_len(dem, cap, pos, _SCENARIO[(self._nc(env), nv)][0])
+                if i + need < 2 * self._nc(env):
                     return np.zeros(nv, dtype=dt)  # idle at the depot so that completion falls on the last step
             return np.asarray(self._plan_step(dem, cap), dtype=dt)
         return super().choose(policy, env, state, obs, rng, i)
